@@ -5,7 +5,8 @@ import os
 
 RULE = ("real MemoryBackend driven operation by operation with bare clients, complete state compared with the model after every step "
         "and every specification clause evaluated on the observed step; families: (targets) every filter pair of the 10-filter universe x 7 names "
-        "x QoS triples, temporary/stored/clean sessions; (retained) every name pair x every filter x QoS pairs with delete and "
+        "x QoS triples, temporary/stored/clean sessions; (ownfull) the publisher's own matching queue full: live publisher (refused, nothing changes) and "
+        "closing publisher (will during a takeover: own session skipped), QoS 0/1/2, temporary and stored, retained flag set, observers; (retained) every name pair x every filter x QoS pairs with delete and "
         "non-retained publishes, then resubscription; (exhaustive) every sequence of depth %s over a %s-operation alphabet "
         "(subscribe, unsubscribe, unsubscribe whose acknowledgement callback publishes, publish retained/empty/plain, dequeue, terminate, "
         "resume, clean takeover) after a fixed two-client prefix, "
